@@ -138,11 +138,12 @@ func (b *bucket) acquire(now int64, k int) (int64, bool) {
 }
 
 type rop struct {
-	adv int64 // advance the clock by this much (0 = none) ...
-	k   int   // ... then acquire k permits (0 = no acquire)
+	adv    int64 // advance the clock by this much (0 = none) ...
+	k      int   // ... then acquire k permits (0 = no acquire)
+	cancel int64 // the caller's context ends this long after the acquire began (0 = never)
 }
 
-var ropAlphabet = []rop{{0, 1}, {0, 2}, {unit / 2, 0}, {unit, 0}, {3 * unit, 0}}
+var ropAlphabet = []rop{{0, 1, 0}, {0, 2, 0}, {unit / 2, 0, 0}, {unit, 0, 0}, {3 * unit, 0, 0}, {0, 1, unit / 4}, {0, 2, 3 * unit / 4}} // the callers give up at instants no admission can fall on: no ties
 var burstAlphabet = []float64{0, 1, 2, math.Inf(1)}
 var rtimeoutAlphabet = []int64{0, unit, 3 * unit}
 
@@ -150,6 +151,22 @@ type adm struct {
 	at      int64
 	k       int
 	timeout bool
+	gaveUp  bool // the caller's context ended before the permits were due: not admitted
+	tie     bool // (model only) the permits fall due at the very instant the caller gives up: either outcome is right
+}
+
+// sameHistory compares an implementation history with the model's; at a tie both outcomes are accepted.
+func sameHistory(impl, model []adm) bool {
+	if len(impl) != len(model) {
+		return false
+	}
+	for i := range impl {
+		a, m := impl[i], model[i]
+		if a.at != m.at || a.k != m.k || a.timeout != m.timeout || (a.gaveUp != m.gaveUp && !m.tie) {
+			return false
+		}
+	}
+	return true
 }
 
 func runRateSeq(burst float64, timeout int64, seq []rop) (impl, model []adm) {
@@ -168,10 +185,22 @@ func runRateSeq(burst float64, timeout int64, seq []rop) (impl, model []adm) {
 			if op.k > 0 {
 				now := vs.Now().UnixNano()
 				at, to := m.acquire(now, op.k)
-				model = append(model, adm{at - base, op.k, to})
-				err := l.Acquire(context.Background(), op.k)
-				impl = append(impl, adm{vs.Now().UnixNano() - base, op.k, err == core.ErrTimeout})
-				if err != nil && err != core.ErrTimeout {
+				ctx := context.Background()
+				gaveUp, tie := false, false
+				if op.cancel > 0 {
+					var cancel context.CancelFunc
+					ctx, cancel = vs.WithTimeout(ctx, time.Duration(op.cancel))
+					defer cancel()
+					if !to && at > now+op.cancel {
+						// the permits are due after the caller has given up: the call ends then, not admitted
+						at, gaveUp = now+op.cancel, true
+					}
+					tie = !to && at == now+op.cancel
+				}
+				model = append(model, adm{at - base, op.k, to, gaveUp, tie})
+				err := l.Acquire(ctx, op.k)
+				impl = append(impl, adm{vs.Now().UnixNano() - base, op.k, err == core.ErrTimeout, err != nil && err != core.ErrTimeout && ctx.Err() != nil, false})
+				if err != nil && err != core.ErrTimeout && ctx.Err() == nil {
 					impl[len(impl)-1].at = -1
 				}
 			}
@@ -186,7 +215,7 @@ func runRateSeq(burst float64, timeout int64, seq []rop) (impl, model []adm) {
 func envelopeExcess(burst float64, h []adm, inner bool) float64 {
 	var as []adm
 	for _, a := range h {
-		if !a.timeout {
+		if !a.timeout && !a.gaveUp {
 			as = append(as, a)
 		}
 	}
@@ -230,7 +259,7 @@ func rateSequential(run *report.Run) (states, transitions, traces int64, samples
 					transitions += int64(len(seq))
 					n++
 					seenStates[fmt.Sprint(burst, to, model)] = true
-					if fmt.Sprint(impl) != fmt.Sprint(model) {
+					if !sameHistory(impl, model) {
 						run.Violate(ID+"|rate|sequential-differs-from-token-bucket", fmt.Sprintf("burst=%v timeout=%v ops=%v: implementation %v, reference %v (entries: admission instant ns, permits, timed out)", burst, to, seq, impl, model),
 							map[string]interface{}{"kind": "rate-seq", "burst": fmt.Sprint(burst), "timeout": to, "ops": fmt.Sprint(seq)})
 					}
